@@ -346,10 +346,12 @@ class NPShim:
         return np.nonzero(np.array([bool(v) for v in x.flat], dtype=bool).reshape(x.shape))
 
     def zeros_like(self, x, dtype=None):
-        return self._full(to_obj(unwrap(x)).shape, P.ZERO)
+        x = to_obj(unwrap(x))
+        return self._full(x.shape, P.ZERO) if is_arr(x) else P.ZERO
 
     def ones_like(self, x, dtype=None):
-        return self._full(to_obj(unwrap(x)).shape, P.ONE)
+        x = to_obj(unwrap(x))
+        return self._full(x.shape, P.ONE) if is_arr(x) else P.ONE
 
     def identity(self, n, dtype=None):
         return self._identity(n)
